@@ -1,96 +1,12 @@
 /-
-  C04 — lemmas for the cycle-level decisions: Python's `==` (`pyEq`) is JSON equality (`same`) on values
-  without booleans; consequences for `detect` / `storeGuard` / `fieldChanged`.
+  C04 — lemmas for the cycle-level decisions: Python's `==` (`pyEq`) is coarser than JSON equality (`same`),
+  never finer; a non-empty diff means JSON-unequal values.
 -/
 import Kopf.Lemmas.C04_PyEq
 import Kopf.Lemmas.C04_Diff
 import Kopf.Model.C04_Cycle
 namespace Kopf.C04
 open Kopf Kopf.J
-
-theorem noBool_of_lookup {k : String} {l : Kvs} {v : J} (hn : noBoolKvs l = true) (h : lookup k l = some v) :
-    noBool v = true := by
-  induction l with
-  | nil => simp at h
-  | cons kv l ih =>
-    obtain ⟨k2, x⟩ := kv
-    simp only [noBoolKvs, Bool.and_eq_true] at hn
-    rw [lookup_cons] at h
-    by_cases hk : k2 = k
-    · simp [hk] at h; subst h; exact hn.1
-    · simp [hk] at h; exact ih hn.2 h
-
-theorem noBool_of_mem {k : String} {l : Kvs} {v : J} (hn : noBoolKvs l = true) (h : (k, v) ∈ l) :
-    noBool v = true := by
-  induction l with
-  | nil => cases h
-  | cons kv l ih =>
-    obtain ⟨k2, x⟩ := kv
-    simp only [noBoolKvs, Bool.and_eq_true] at hn
-    rcases List.mem_cons.1 h with h | h
-    · cases h; exact hn.1
-    · exact ih hn.2 h
-
-theorem noBool_of_memList {xs : List J} {x : J} (hn : noBoolList xs = true) (h : x ∈ xs) : noBool x = true := by
-  induction xs with
-  | nil => cases h
-  | cons y ys ih =>
-    simp only [noBoolList, Bool.and_eq_true] at hn
-    rcases List.mem_cons.1 h with h | h
-    · subst h; exact hn.1
-    · exact ih hn.2 h
-
-/-- on values without booleans Python's `==` IS JSON equality. -/
-theorem pyEq_eq_same (a : J) : noBool a = true → ∀ b, noBool b = true → pyEq a b = same a b := by
-  refine fullInd_aux (P := fun a => noBool a = true → ∀ b, noBool b = true → pyEq a b = same a b) ?_ ?_ ?_ a
-  · intro a h1 h2 ha b hb
-    cases a with
-    | arr xs => exact absurd rfl (h1 xs)
-    | obj kvs => exact absurd rfl (h2 kvs)
-    | bool x => simp [noBool] at ha
-    | null => cases b <;> simp [pyEq, same]
-    | str s => cases b <;> simp [pyEq, same]
-    | num n =>
-      cases b with
-      | bool y => simp [noBool] at hb
-      | _ => simp [pyEq, same]
-  · intro xs ih ha b hb
-    cases b with
-    | arr ys =>
-      simp only [pyEq, same]
-      have hxs : noBoolList xs = true := by simpa [noBool] using ha
-      have hys : noBoolList ys = true := by simpa [noBool] using hb
-      clear ha hb
-      induction xs generalizing ys with
-      | nil => cases ys <;> simp [pyEqList, sameList]
-      | cons x xs ihl =>
-        cases ys with
-        | nil => simp [pyEqList, sameList]
-        | cons y ys =>
-          simp only [noBoolList, Bool.and_eq_true] at hxs hys
-          simp only [pyEqList, sameList]
-          rw [ih x List.mem_cons_self hxs.1 y hys.1,
-              ihl (fun z hz => ih z (List.mem_cons_of_mem _ hz)) ys hxs.2 hys.2]
-    | _ => simp [pyEq, same]
-  · intro kvs ih ha b hb
-    cases b with
-    | obj kb =>
-      simp only [pyEq, same]
-      have hka : noBoolKvs kvs = true := by simpa [noBool] using ha
-      have hkb : noBoolKvs kb = true := by simpa [noBool] using hb
-      congr 1
-      clear ha hb
-      induction kvs with
-      | nil => simp [pyEqSub, sameSub]
-      | cons kv rest ihl =>
-        obtain ⟨k, x⟩ := kv
-        simp only [noBoolKvs, Bool.and_eq_true] at hka
-        simp only [pyEqSub, sameSub]
-        rw [ihl (fun k' x' hm => ih k' x' (List.mem_cons_of_mem _ hm)) hka.2]
-        cases hl : lookup k kb with
-        | none => rfl
-        | some y => simp only []; rw [ih k x List.mem_cons_self hka.1 y (noBool_of_lookup hkb hl)]
-    | _ => simp [pyEq, same]
 
 /-- JSON-equal values are Python-equal (Python's `==` is coarser). -/
 theorem pyEq_of_same (a : J) : ∀ b, same a b = true → pyEq a b = true := by
@@ -140,22 +56,6 @@ theorem pyEq_of_same (a : J) : ∀ b, same a b = true → pyEq a b = true := by
           simp only [hl] at h1
           exact ih k x List.mem_cons_self y h1
     | _ => simp [same] at h
-
-theorem noBool_resolve? : ∀ (f : Path) (a v : J), noBool a = true → resolve? a f = some v → noBool v = true := by
-  intro f
-  induction f with
-  | nil => intro a v ha h; simp [resolve?] at h; subst h; exact ha
-  | cons k ks ih =>
-    intro a v ha h
-    cases a with
-    | obj kvs =>
-      simp only [resolve?] at h
-      cases hl : lookup k kvs with
-      | none => simp [hl] at h
-      | some x =>
-        simp only [hl] at h
-        exact ih x v (noBool_of_lookup (by simpa [noBool] using ha) hl) h
-    | _ => simp [resolve?] at h
 
 /-- a non-empty diff means the two values are not JSON-equal. -/
 theorem same_false_of_diff_ne {a b : J} {p : Path} (h : diff a b p ≠ []) : same a b = false := by
